@@ -414,7 +414,7 @@ func main() {
 		if tier == "thorough" {
 			r.exhaustive()
 		}
-		nHist, nSteps := 420, 150
+		nHist, nSteps := 360, 150
 		if tier == "thorough" {
 			nHist, nSteps = 9000, 150
 		}
